@@ -56,10 +56,10 @@ class Beta(Distribution):
     def cdf(self, x):
 
         # Check bounds
-        if np.any(x<=0) or np.any(x>=1) or np.any(self.alpha<=0) or np.any(self.beta<=0):
+        if np.any(self.alpha<=0) or np.any(self.beta<=0):
             return 0
 
-        # Compute logpdf
+        # Compute cdf (scipy gives 0 below and 1 above the support)
         return np.prod(sps.beta.cdf(x, a=self.alpha, b=self.beta))
 
     def _sample(self, N=1, rng=None):
